@@ -109,6 +109,10 @@ func H_two() {
 	}
 	// recorded finding: the superglobal caches are package-level variables shared by all requests
 	symx.KnownPanic("C11-shared-superglobal-cache", "on superglobal cache@", true)
+	symx.KnownPanic("C11-shared-superglobal-cache", "heap cell@node.ResetSuperglobals", true)
+	// this handler reads $_GET: the object behind it is created by one request and reached by the
+	// other through the shared cache, so unordered accesses to that object's own cells are the same finding
+	symx.KnownPanic("C11-shared-superglobal-cache", "heap cell@data.ObjectValue).GetProperty,data.ObjectValue).SetProperty,data.OrderedMap).Get,data.OrderedMap).Set", true)
 	// same root cause: B resets the cache to nil between A's nil test and A's use of it
 	symx.KnownPanic("C11-shared-superglobal-cache", "nil pointer dereference@(*github.com/php-any/origami/data.ObjectValue).GetProperty,(*github.com/php-any/origami/data.ObjectValue).SetProperty", true)
 	// a request that completed earlier on the same handler (state it left behind is in place)
@@ -182,6 +186,7 @@ func H_two_locals() {
 	// the unsynchronised reset of the package-level caches at the start of every request is part of
 	// the recorded finding (a race on those cells only; any other race or any wrong body is a violation)
 	symx.KnownPanic("C11-shared-superglobal-cache", "on superglobal cache@", true)
+	symx.KnownPanic("C11-shared-superglobal-cache", "heap cell@node.ResetSuperglobals", true)
 	// a request that completed earlier on the same handler (state it left behind is in place)
 	h.ServeHTTP(&recorder{hdr: http.Header{}}, request("9"))
 	qs := [2]string{"1", "2"}
@@ -247,6 +252,7 @@ func H_two_middleware() {
 		symx.Shared(c, "superglobal cache")
 	}
 	symx.KnownPanic("C11-shared-superglobal-cache", "on superglobal cache@", true)
+	symx.KnownPanic("C11-shared-superglobal-cache", "heap cell@node.ResetSuperglobals", true)
 	// a request that completed earlier through the same stack (whatever it left behind — pooled
 	// writers, cached contexts — is there when the two concurrent requests arrive)
 	if symx.Param("warm", 1) == 1 {
@@ -269,6 +275,63 @@ func H_two_middleware() {
 	for t := 0; t < 2; t++ {
 		want := "pre:" + qs[t] + ";h:" + qs[t] + ";post:T" + qs[t] + ";"
 		symx.Assert(string(recs[t].body) == want, "response body equals what middleware + handler yield for this request alone")
+	}
+	symx.Reach("end")
+}
+
+// handler exercising the call-site kinds of the evaluator on per-request state only: instance
+// method calls (chained, in a loop), a static call, a named function, a closure with a capture,
+// string interpolation, foreach over objects, a ternary
+const constructsSrc = `
+class Box { public $v = "";
+  function get() { return $this->v; }
+  function set($x) { $this->v = $x; return $this; }
+  static function make($x) { $b = new Box(); $b->v = $x; return $b; } }
+function helper($x) { return $x . ""; }
+function handler($r, $w) {
+  $q = $r->query(); $a = $q->x;
+  $o = Box::make($a);
+  $p = new Box(); $p->set($a);
+  $f = function($z) use ($a) { return $z . $a; };
+  $s = "";
+  foreach ([$o, $p] as $it) { $s .= $it->get(); }
+  $t = helper($a);
+  $u = "{$a}";
+  $w->write($s . $f("") . $t . $u . ($a == "1" ? "y" : "n"));
+}
+`
+
+// H_two_constructs: two requests in flight through a handler built from many call-site kinds. The
+// handler's syntax tree is shared by the two requests: whatever a call site remembers between
+// evaluations is shared state, and any unsynchronised write to it is reported as a race.
+func H_two_constructs() {
+	h, ok := newHandlerFrom(constructsSrc)
+	symx.Assert(ok, "handler script parses and defines handler()")
+	if !ok {
+		return
+	}
+	for _, c := range node.VerifSuperglobalCells() {
+		symx.Shared(c, "superglobal cache")
+	}
+	symx.KnownPanic("C11-shared-superglobal-cache", "on superglobal cache@", true)
+	symx.KnownPanic("C11-shared-superglobal-cache", "heap cell@node.ResetSuperglobals", true)
+	h.ServeHTTP(&recorder{hdr: http.Header{}}, request("9"))
+	qs := [2]string{"1", "2"}
+	tail := [2]string{"y", "n"}
+	recs := [2]*recorder{{hdr: http.Header{}}, {hdr: http.Header{}}}
+	var wg sync.WaitGroup
+	wg.Add(2)
+	for t := 0; t < 2; t++ {
+		t := t
+		go func() {
+			h.ServeHTTP(recs[t], request(qs[t]))
+			wg.Done()
+		}()
+	}
+	wg.Wait()
+	for t := 0; t < 2; t++ {
+		symx.Observe("body", t, string(recs[t].body))
+		symx.Assert(string(recs[t].body) == qs[t]+qs[t]+qs[t]+qs[t]+qs[t]+tail[t], "response body equals what the handler yields for this request alone")
 	}
 	symx.Reach("end")
 }
